@@ -4,6 +4,7 @@ import (
 	"fmt"
 	"go/token"
 	"go/types"
+	"os"
 	"sort"
 	"strings"
 
@@ -160,6 +161,12 @@ func c01Purity(c *eng.Ctx, r *eng.Report, cone *eng.Cone) {
 			seen[key] = true
 			pos := c.Pos(h.Pos)
 			rv, ok := reviewedND[key]
+			if !ok && h.Kind == "map-range" && c01CollectsAndSorts(h) {
+				// decided by shape, wherever it stands: an iteration does nothing but append to a slice (no call, no
+				// early exit, no carried condition) and the slice is handed to sort.* after the loop
+				r.Pass(rule, key, pos, "collects into a slice that is sorted after the loop; an iteration calls nothing")
+				continue
+			}
 			if !ok {
 				r.Fail(rule, key, pos, h.Detail+" inside the execution cone ("+cone.PathTo(fn)+") is not in the reviewed table: a source of replica-local nondeterminism that can reach the state root, receipts or evicted list")
 				continue
@@ -855,4 +862,51 @@ func c01JSON(c *eng.Ctx, r *eng.Report) {
 	walk(rec, "Receipt")
 	sort.Strings(bad)
 	r.Check(len(bad) == 0, rule, "type:middleware/types.Receipt", c.Pos(rec.Obj().Pos()), "every type reachable from Receipt marshals deterministically (no map with non-string/int key, no interface{})", "receipt JSON is not order-stable: "+strings.Join(bad, ", "))
+}
+
+// c01CollectsAndSorts: the generic order-insensitive map walk.
+func c01CollectsAndSorts(h eng.NDHit) bool {
+	rg, ok := h.Instr.(*ssa.Range)
+	if !ok {
+		if os.Getenv("RR_DEBUG") != "" {
+			fmt.Fprintf(os.Stderr, "collect-and-sort %s: instr is %T\n", eng.FuncName(h.Fn), h.Instr)
+		}
+		return false
+	}
+	lp := eng.LoopOfRange(rg)
+	if lp == nil || len(lp.EarlyExits) > 0 || lp.StrConcat || lp.CarriedCond() != "" || len(lp.Appends) == 0 {
+		if os.Getenv("RR_DEBUG") != "" {
+			fmt.Fprintf(os.Stderr, "collect-and-sort %s: lp=%v exits=%d concat=%v carried=%q appends=%d\n", eng.FuncName(h.Fn), lp != nil, len(lp.EarlyExits), lp.StrConcat, lp.CarriedCond(), len(lp.Appends))
+		}
+		return false
+	}
+	for b := range lp.Body {
+		for _, in := range b.Instrs {
+			if call, isCall := in.(ssa.CallInstruction); isCall && !strings.HasPrefix(eng.CallName(call.Common()), "builtin:") {
+				if os.Getenv("RR_DEBUG") != "" {
+					fmt.Fprintf(os.Stderr, "collect-and-sort %s: body calls %s\n", eng.FuncName(h.Fn), eng.CallName(call.Common()))
+				}
+				return false
+			}
+			if st, isStore := in.(*ssa.Store); isStore {
+				// the variadic argument array of append(s, k) is a fresh local
+				if ia, isIA := st.Addr.(*ssa.IndexAddr); isIA {
+					if _, isAl := ia.X.(*ssa.Alloc); isAl {
+						continue
+					}
+				}
+				if os.Getenv("RR_DEBUG") != "" {
+					fmt.Fprintf(os.Stderr, "collect-and-sort %s: store %s\n", eng.FuncName(h.Fn), in)
+				}
+				return false
+			}
+			if _, isMU := in.(*ssa.MapUpdate); isMU {
+				return false
+			}
+		}
+	}
+	if os.Getenv("RR_DEBUG") != "" {
+		fmt.Fprintf(os.Stderr, "collect-and-sort %s: sortedAfter=%v\n", eng.FuncName(h.Fn), sortedAfter(h.Fn, lp))
+	}
+	return sortedAfter(h.Fn, lp)
 }
